@@ -298,8 +298,12 @@ func genAuth(repo, out string) error {
 			return ok && c09Src(fsetR, is.Cond) == `string(hello.Realm) == ""`
 		}},
 		{"realmLookup", func(s ast.Stmt) bool {
-			ss, ok := s.(*ast.SendStmt)
-			return ok && c09Src(fsetR, ss.Chan) == "r.actionChan"
+			// `r.actionChan <- func() {...}` or `if !r.post(func() {...}) { abort }`
+			if ss, ok := s.(*ast.SendStmt); ok {
+				return c09Src(fsetR, ss.Chan) == "r.actionChan"
+			}
+			is, ok := s.(*ast.IfStmt)
+			return ok && strings.HasPrefix(c09Src(fsetR, is.Cond), "!r.post(func()")
 		}},
 		{"normalizeDetails", func(s ast.Stmt) bool {
 			as, ok := s.(*ast.AssignStmt)
